@@ -239,7 +239,15 @@ def _run(ctx, rng, d):
                 % TIMEOUT)
 
     jobs = []
-    for ix, (fam, defs, body, expect) in enumerate(cases + probes):
+    # the fixed probes of the recorded findings each cost the full timeout: they go first (so that they overlap
+    # with everything else) and, at quick, through ONE entry point only (4 slow processes, one timeout of wall-clock)
+    n_small = 4
+    slow = probes[n_small:]
+    for ix, (fam, defs, body, expect) in enumerate(slow):
+        jobs.append(("playground-run", 50000 + ix, fam, defs, body, expect))
+        if not ctx.quick():
+            jobs.append(("sandboxed-test", 50000 + ix, fam, defs, body, expect))
+    for ix, (fam, defs, body, expect) in enumerate(cases + probes[:n_small]):
         jobs.append(("playground-run", ix, fam, defs, body, expect))
         jobs.append(("sandboxed-test", ix, fam, defs, body, expect))
     for ix, (fam, src, expect) in enumerate(controls):
@@ -283,7 +291,8 @@ def _run(ctx, rng, d):
     # (2) small random limits on everything
     small = []
     for fam, s, e in core + [(f, s, e) for f, s, e in controls]:
-        small.append((fam, s, e, rng.choice([1, 2, 7, 50, 333, 2000]), rng.choice([1, 2, 3, 10, 40])))
+        tl_, sl_ = rng.choice([(1, 1), (2, 40), (7, 2), (50, 3), (333, 10), (2000, 40), (2000, 3), (5000, 1)])
+        small.append((fam, s, e, tl_, sl_))
     by_lim = {}
     for item in small:
         by_lim.setdefault((item[3], item[4]), []).append(item)
